@@ -1,13 +1,126 @@
-(* C17 - errors and @print output are attributed to the right file and line.  Statements only. *)
+(* C17 - errors and @print output are attributed to the right file and line.  Statements only.
+   Machine: Builder/Lines.v (one definition), Builder/Reader.v (namespace).  All theorems hold for every payload type,
+   every dependency reader / print handler (T V D W read_dep emit are universally quantified). *)
 From Coq Require Import ZArith List Bool.
-From PV Require Import Builder.Lines Builder.Basics Builder.LineProofs.
+From PV Require Import Builder.Lines Builder.Basics Builder.LineProofs Builder.Reader Builder.ReaderProofs Builder.Witness.
 Import ListNotations.
 Open Scope Z_scope.
 
+Section S.
+Variables T V D W : Type.
+Variable read_dep : D -> W -> W * option eloc.
+Variable emit : Z -> text -> W -> W.
+Notation line := (line T V D).
+Notation run_upto := (run_upto T V D W read_dep emit).
+Notation step_line := (step_line T V D W read_dep emit).
+Notation run := (run T V D W read_dep emit).
+Notation phys := (phys_after T V D 1).
+
 (* the line counter while the line that follows ls is visited equals the physical line on which that line starts,
    whatever ls contains: comments, blank lines, statements, string literals that span several lines (l_extra) *)
-Theorem C17_line_counter : forall (T V D W : Type) (read_dep : D -> W -> W * option eloc) (emit : Z -> text -> W -> W)
-  (ls : list (line T V D)) (w : W) (s : st T V W),
-  run_upto T V D W read_dep emit ls (init T V W w) = Ok s -> line_no T V W s = phys_after T V D 1 ls.
+Theorem C17_line_counter : forall (ls : list line) (w : W) (s : st T V W),
+  run_upto ls (init T V W w) = Ok s -> line_no T V W s = phys ls.
 Proof. intros. apply (line_counter T V D W read_dep emit ls _ _ H). Qed.
+
+(* complete characterisation of the location of an error raised while line l (preceded by p) is visited:
+   (1) the physical line of l itself, or (2) the physical line of an earlier attribute statement that has been waiting
+   for its doc comment since (only comment/blank lines in between), or (3) an error that came out of a nested read *)
+Theorem C17_line_immediate : forall (p : list line) (l : line) (w : W) (s : st T V W) (e : eloc) (w' : W),
+  run_upto p (init T V W w) = Ok s -> step_line l s = Err e w' ->
+  e = ELoc None (Some (phys p))
+  \/ (exists q, queued_at T V D p 1 q /\ e = ELoc None (Some (snd q)))
+  \/ (exists d w0 w1 e0, read_dep d w0 = (w1, Some e0) /\ e = inject_line e0 (phys p)).
+Proof. exact (error_location T V D W read_dep emit). Qed.
+
+(* ... in particular with nothing queued and no failing dependency the reported line is the line of the statement *)
+Theorem C17_line_immediate_here : forall (p : list line) (l : line) (w : W) (s : st T V W) (e : eloc) (w' : W),
+  run_upto p (init T V W w) = Ok s -> pending T V W s = None -> (forall d w0, snd (read_dep d w0) = None) ->
+  step_line l s = Err e w' -> e = ELoc None (Some (phys p)).
+Proof. exact (error_location_here T V D W read_dep emit). Qed.
+
+(* the line remembered with a queued attribute is the physical line of its statement; nothing but comment lines and
+   blanks-only lines lies between that statement and the current position *)
+Theorem C17_line_commit_origin : forall (p : list line) (w : W) (s : st T V W) q,
+  run_upto p (init T V W w) = Ok s -> pending T V W s = Some q -> queued_at T V D p 1 q.
+Proof. exact (pending_line T V D W read_dep emit). Qed.
+
+(* an attribute statement whose construction raises (bad name, constant out of range, ...) is reported at its own
+   physical line, whatever follows it - comments, blank lines, further statements, the end of the text with or without
+   a final line feed *)
+Theorem C17_line_commit : forall (p : list line) (l : line) (r : list line) pre a (w : W) (s0 s1 : st T V W),
+  run_upto p (init T V W w) = Ok s0 -> l_stmt T V D l = Some (Stmt pre (XAttr a true)) -> step_line l s0 = Ok s1 ->
+  Forall (fun l' => forall x, l_stmt T V D l' = Some x -> flush_first T V D x) r ->
+  exists w', run (p ++ l :: r) w = Err (ELoc None (Some (phys p))) w'.
+Proof. exact (commit_line T V D W read_dep emit). Qed.
+
+(* ... and without any assumption on what follows it is never accepted *)
+Theorem C17_commit_not_lost : forall (p : list line) (l : line) (r : list line) pre a (w : W),
+  l_stmt T V D l = Some (Stmt pre (XAttr a true)) -> forall m w', run (p ++ l :: r) w <> Ok (m, w').
+Proof. exact (commit_not_lost T V D W read_dep emit). Qed.
+
+(* errors raised after the last line: only finalize() (no line) or the construction of the last queued attribute *)
+Theorem C17_line_finish : forall (ls : list line) (w : W) (s : st T V W) e w',
+  run_upto ls (init T V W w) = Ok s -> finish T V W s = Err e w' ->
+  e = no_loc \/ (exists q, queued_at T V D ls 1 q /\ e = ELoc None (Some (snd q))).
+Proof. exact (finish_location T V D W read_dep emit). Qed.
+
+(* exactly one call of the print handler per evaluated @print, with the line of the directive and str(value) *)
+Theorem C17_print_once_here_stmt : forall (l : line) pre g shown (s s1 : st T V W),
+  l_stmt T V D l = Some (Stmt pre (XDir KPrint g shown)) -> step_line l s = Ok s1 ->
+  exists s2, run_pre T V D W read_dep pre s = Ok s2 /\ Lines.world T V W s1 = emit (line_no T V W s) shown (Lines.world T V W s2).
+Proof. exact (print_once_here T V D W read_dep emit). Qed.
+
+End S.
 Print Assumptions C17_line_counter.
+Print Assumptions C17_line_immediate.
+Print Assumptions C17_line_immediate_here.
+Print Assumptions C17_line_commit_origin.
+Print Assumptions C17_line_commit.
+Print Assumptions C17_commit_not_lost.
+Print Assumptions C17_line_finish.
+Print Assumptions C17_print_once_here_stmt.
+
+(* the error that comes out of read_namespace, at whatever depth it was raised, is the error of the file in which it was
+   raised - raised by parsimonious, or by that file's own statements / final flush / finalize - with that file's path and
+   the line (or the absence of a line, F12) it had there: outer frames change nothing *)
+Theorem C17_path_innermost : forall (T V : Type) (fs : list (file T V)) lk ts ps e,
+  resolvable T V fs lk -> resolvable T V fs ts -> (length lk <= length fs)%nat ->
+  read_ns T V fs lk ts = (ps, Some e) -> origin T V fs e.
+Proof. exact read_ns_origin. Qed.
+Print Assumptions C17_path_innermost.
+
+(* the repaired finding F12 as an instance: the error of a dependency's finalize() has the dependency's path and no line *)
+Theorem C17_finalize_line : read_ns unit unit [fA3; fZbad] [1; 2] [1; 2] = ([], Some (ELoc (Some pZ) None)).
+Proof. exact finalize_line_example. Qed.
+Print Assumptions C17_finalize_line.
+
+(* full statement "each evaluated @print is delivered exactly once with the path of its own file and its own line":
+   FALSE of the faithful model (open finding F3) - the handler is bound to the path of the target being read and handed
+   down unchanged, and a target is parsed again through its lookup twin *)
+Theorem C17_print_refuted : exists (fs : list ufile) lk ts ps,
+  read_ns unit unit fs lk ts = (ps, None) /\ deliveries_ok fs ps = false.
+Proof. exact print_refuted. Qed.
+Print Assumptions C17_print_refuted.
+
+Theorem C17_print_twice_refuted : exists (fs : list ufile) lk ts ps, read_ns unit unit fs lk ts = (ps, None)
+  /\ forallb (fun d => match d with (_, _, s) => Nat.eqb (count_text s ps) 1 end) ps = false.
+Proof. exact print_refuted_twice. Qed.
+Print Assumptions C17_print_twice_refuted.
+
+(* partial: a definition without versioned types that is read as a target gets each of its directives delivered exactly
+   once, in order, with its own path and its own physical line.  Missing for the full statement: definitions that are
+   (also) read as dependencies - there the property is false, see C17_print_refuted. *)
+Theorem C17_print_once_here_partial : forall (T V : Type) fuel (fs : list (file T V)) lk t f w w',
+  find_file T V fs t = Some f -> f_syntax T V f = None -> f_lines T V f <> [] -> Forall (no_reads T V Z) (f_lines T V f) ->
+  memz t (pool w) = false ->
+  read_targets T V (S fuel) fs lk [t] w = (w', None) ->
+  prints w' = prints w ++ map (fun ns => (f_path T V f, fst ns, snd ns)) (print_dirs T V 1 (f_lines T V f)).
+Proof. exact leaf_target_prints. Qed.
+Print Assumptions C17_print_once_here_partial.
+
+(* non-vacuity: the hypotheses of the line theorems are satisfiable and the model computes on them (repaired F2, F1, F8) *)
+Example C17_nonvacuous :
+  read_ns unit unit [File 1 pA None [L (fld [116] true); Lc [32; 99]; Lc [32; 100]; L (fld [98] false); L sealed]] [1] [1] = ([], Some (ELoc (Some pA) (Some 1)))
+  /\ read_ns unit unit [File 1 pA None [Line (Some (print [97])) false None 1; L (Stmt [PIdent] (XDir KAssert (GBool false) []))]] [1] [1]
+     = ([(pA, 1, [97])], Some (ELoc (Some pA) (Some 3))).
+Proof. split; [exact f2_example|exact f8_example]. Qed.
